@@ -20,6 +20,9 @@ REACH_FILES = ['d42/generation/_regex_generator.py']
 TIERS = {"quick": dict(shards=16, cases=6000), "thorough": dict(shards=16, cases=90000)}
 
 
+LONG_COUNTS = (76, 100, 127, 128, 129, 255, 256, 257, 500, 1000, 1023, 1024, 1025, 2047, 2048, 2049, 4096, 10000)
+
+
 def run_case(ctx, rng, case):
     from d42 import fake, schema, validate
     G = mod("d42.generation")
@@ -42,6 +45,27 @@ def run_case(ctx, rng, case):
                 ctx.count("generate_calls")
                 ctx.count("systematic_bound_generations")
                 judge(ctx, pat, rx, out, exc, False, [], f"systematic/max_repeat={max_repeat}/{sched}")
+        return
+    if case < 150 + 4 * len(LONG_COUNTS):
+        # second systematic part: counted repeats whose *required* length is far beyond anything the random
+        # programs ask for (a length cap / buffer limit that ignores the minimum count must not go unnoticed)
+        n = LONG_COUNTS[(case - 150) // 4]
+        form = (case - 150) % 4
+        pat = ("x{%d}" % n, "^(?:[01]{4} ){%d}$" % n, "[0-9a-f]{%d,%d}" % (n, n + 3), "a{%d,%d}?b" % (n, n + 2))[form]
+        rx = re.compile(pat)
+        ctx.distinct(["systematic_long_count", n, form], True)
+        for max_repeat in (100, 32):
+            gen = G.RegexGenerator(G.Random(), max_repeat=max_repeat)
+            for sched in ("hi", "lo", "seeded"):
+                adv = advrandom.Adversary(sched, seed=rng.getrandbits(32))
+                with advrandom.installed(adv):
+                    try:
+                        out, exc = gen.generate(pat), None
+                    except Exception as e:  # noqa
+                        out, exc = None, e
+                ctx.count("generate_calls")
+                ctx.count("systematic_long_count_generations")
+                judge(ctx, pat, rx, out, exc, False, [], f"systematic_long/max_repeat={max_repeat}/{sched}")
         return
     unsupported = (case % 3 == 2)
     node = regexgen.gen_pattern(rng, depth=rng.choice((0, 1, 2, 2, 3)), anchors=True,
